@@ -1,5 +1,92 @@
-import Smooth.Model.Surface
+/-
+C01 — Evaluation returns the real-arithmetic value of the expression.
+
+Everything is about `evalG realNum` : the model's evaluator (a transcription of `_evaluate`,
+`_verify_domain_constraints`, `_value_formula` and `math_functions.py`) instantiated with Mathlib's
+real numbers.  `den` reads the tree as ordinary real arithmetic (Real/Spec.lean) and is written
+independently of the model; `Dom` is the documented domain; `Supp p e` says the point has a
+coordinate for every variable.  Rounding (the property's "up to floating-point rounding") is outside
+any theorem and is decided by the correspondence run against the implementation.
+-/
+import Smooth.Proofs.Eval
+import Smooth.Proofs.Vars
+
 namespace Smooth
-/-- placeholder while the property file is being written -/
-theorem C01_placeholder : (1 : Nat) = 1 := rfl
+open Expr
+
+/-- **C01.**  The evaluator answers a value exactly on supplied points of the domain, and the value
+is the denotation: n-ary sum and product (empty sum 0, empty product 1), difference, quotient,
+integer power, sign-keeping real n-th root, `a^b = exp (b ln a)`, base-`b` exponential and logarithm,
+sine, cosine. -/
+theorem eval_ok_iff (p : Point ℝ) (e : Expr ℝ) (hwf : WF e) (v : ℝ) :
+    evalG realNum p e = .ok v ↔ Supp p e ∧ Dom (valOf p) e ∧ v = den (valOf p) e :=
+  (evalR_good p e hwf).ok_iff
+
+/-- on the domain the value is the denotation -/
+theorem eval_eq_den (p : Point ℝ) (e : Expr ℝ) (hwf : WF e) (hs : Supp p e)
+    (hd : Dom (valOf p) e) : evalG realNum p e = .ok (den (valOf p) e) :=
+  (eval_ok_iff p e hwf _).mpr ⟨hs, hd, rfl⟩
+
+/-- the short-circuiting running product of `math_functions.multiply` is the product -/
+theorem multiply_is_product (xs : List ℝ) : mfMultiply realNum xs = xs.prod := mfMultiply_real xs
+
+/-- Python's `sum` is the sum -/
+theorem add_is_sum (xs : List ℝ) : mfAdd realNum xs = xs.sum := mfAdd_real xs
+
+/-- the four-way case split of `math_functions.nth_root` (identity, `sqrt`, sign-flipped `cbrt`,
+`x ** (1/n)` with sign handling) is the sign-keeping real root on its documented domain -/
+theorem nth_root_is_sroot {n : ℕ} (hn : 1 ≤ n) (a : ℝ) (h : RootOK n a) :
+    (do verifyNthRoot realNum n a; mfNthRoot realNum a n) = .ok (sroot n a) := by
+  rw [nthRoot_local hn a]; simp [h]
+
+/-- the sign-keeping root really is a root: `sroot n x ^ n = x` for odd `n`, and for `x ≥ 0` -/
+theorem sroot_pow {n : ℕ} (hn : 1 ≤ n) (x : ℝ) (h : 0 ≤ x ∨ n % 2 = 1) : sroot n x ^ n = x := by
+  have hn0 : (n : ℝ) ≠ 0 := by exact_mod_cast (by omega : n ≠ 0)
+  unfold sroot
+  split
+  · next hx =>
+    rw [← Real.rpow_natCast, ← Real.rpow_mul hx]
+    simp [hn0]
+  · next hx =>
+    have hodd : n % 2 = 1 := by
+      rcases h with h | h
+      · exact absurd h hx
+      · exact h
+    have hneg : 0 ≤ -x := by linarith [not_le.mp hx]
+    have : Odd n := Nat.odd_iff.mpr hodd
+    rw [Odd.neg_pow this, ← Real.rpow_natCast, ← Real.rpow_mul hneg]
+    simp [hn0]
+
+/-- the bare-number entry point is evaluation at the one-coordinate point of the single variable -/
+theorem atNumber_eq (e : Expr ℝ) (t : ℝ) :
+    atNumber realNum e t = (singleVarName e >>= fun x => evalG realNum [(x, t)] e) := rfl
+
+/-- and it is rejected (the library's generic `Exception`) exactly for expressions with two or more
+variables -/
+theorem atNumber_usage_iff (e : Expr ℝ) (hwf : WF e) (t : ℝ) :
+    atNumber realNum e t = .error .usage ↔ 2 ≤ e.vars.length := by
+  unfold atNumber singleVarName
+  match hv : e.vars with
+  | [] =>
+    simp only [pure, Except.pure, bind, Except.bind, List.length_nil]
+    constructor
+    · intro h
+      rcases (evalR_good [("whatever", t)] e hwf).error_cases h with h | h <;> cases h
+    · intro h; omega
+  | [x] =>
+    simp only [pure, Except.pure, bind, Except.bind, List.length_singleton]
+    constructor
+    · intro h
+      rcases (evalR_good [(x, t)] e hwf).error_cases h with h | h <;> cases h
+    · intro h; omega
+  | _ :: _ :: _ => simp [bind, Except.bind, throw, throwThe, MonadExceptOf.throw]
+
+/-- non-vacuity: a concrete tree with a shared-looking structure, an odd root of a negative value, a
+0-ary product and a 1-ary sum meets every hypothesis of `eval_ok_iff` -/
+example :
+    let e : Expr ℝ := mkAdd [mkVar "x", mkNRoot (mkVar "y") 3, mkMul [], mkAdd [mkNPow (mkVar "x") 2]]
+    let p : Point ℝ := [("x", 1), ("y", -8)]
+    WF e ∧ Supp p e ∧ Dom (valOf p) e := by
+  simp [WF, WFList, Supp, SuppList, Dom, DomList, den, valOf, Point.get?]
+
 end Smooth
